@@ -197,79 +197,190 @@ def _dir_job(seed, i):
     return (seed * 7919 + i, f"dir{i}", D.TEMPLATES[i % len(D.TEMPLATES)])
 
 
-def _rnd_job(seed, i):
-    return (seed * 1000003 + i, f"rnd{i}", [15, 30, 60, 100][i % 4], [0.1, 0.25, 0.4][i % 3], 2 + i % 3)
+def _rnd_job(seed, i, big=True):
+    """big (thorough tier): also 100-step schedules and 4 callers (their validation is much more expensive: with several
+    callers failing and retrying it stays open for long which caller an attempt belongs to)."""
+    if big:
+        return (seed * 1000003 + i, f"rnd{i}", [15, 30, 60, 100][i % 4], [0.1, 0.25, 0.4][i % 3], 2 + i % 3)
+    return (seed * 1000003 + i, f"rnd{i}", [15, 30, 45, 60][i % 4], [0.1, 0.25, 0.4][i % 3], 2 + i % 2)
 
 
 # ------------------------------------------------------------------ (C) validation
-class _SharedCtx:
-    """ctx facade for trace validation from several threads (TLC trace runs are single-worker)."""
+SIG_STALE = "extble-stale-keys-after-link-loss"
+_REJ = re.compile(r'<<"REJECTED", (\d+), (\d+)>>')
+_acct = threading.Lock()
 
-    def __init__(self, ctx):
-        self.ctx, self.lock = ctx, threading.Lock()
 
-    def tlc(self, *a, **kw):
-        from harness import tlc as T
-        # run TLC outside the lock, account under it
-        path = a[0]
-        cfgp = a[1]
-        kw2 = {k: v for k, v in kw.items() if k not in ("require_cover", "ignore_cover", "label", "expect_violation")}
-        res = T.run(path, cfgp, **kw2)
-        with self.lock:
-            c = self.ctx
-            c.states += res.distinct
-            c.transitions += res.generated
-            c.tlc_runs.append({"module": "spec/ble/BleSession_Trace.tla", "cfg": os.path.basename(cfgp), "label": kw.get("label"),
-                               "generated": res.generated, "distinct": res.distinct, "depth": res.depth,
-                               "wall_s": round(res.wall_s, 2), "ok": res.ok, "actions": {}})
-        return res
-
-    def trace_ok(self, n=1):
-        with self.lock:
-            self.ctx.trace_ok(n)
+def _tlc_traces(ctx, cfg, part, label, timeout=1500):
+    """One TLC run over a batch of records -> list of rejections dict(record, maxl, event, invariant, last_state).
+    No per-rejection diagnosis runs here (see _explain)."""
+    from harness import tlc as T
+    from harness.common import MachineryError
+    path = os.path.join(SPEC, "ble", "BleSession_Trace.tla")
+    cfgp = os.path.join(SPEC, "ble", cfg)
+    out = []
+    todo = list(part)
+    while todo:
+        tmp = tempfile.mkdtemp(prefix="tvx_")
+        try:
+            tf = os.path.join(tmp, "batch.ndjson")
+            with open(tf, "w") as f:
+                for r in todo:
+                    f.write(json.dumps(r) + "\n")
+            res = T.run(path, cfgp, env={"TRACE_FILE": tf, "DBG_L": "0"}, workers=1, dfs_queue=True, coverage=False, timeout=timeout)
+        finally:
+            shutil.rmtree(tmp, ignore_errors=True)
+        with _acct:
+            ctx.states += res.distinct
+            ctx.transitions += res.generated
+            ctx.tlc_runs.append({"module": "spec/ble/BleSession_Trace.tla", "cfg": cfg, "label": f"{label} ({len(todo)} executions)",
+                                 "generated": res.generated, "distinct": res.distinct, "depth": res.depth,
+                                 "wall_s": round(res.wall_s, 2), "ok": res.ok, "actions": {}})
+        if not res.ok and res.violation["kind"] in ("invariant", "action_property"):
+            # a recorded execution drove the specification into a state violating a checked property: which one?
+            ce = T.parse_counterexample(res.violation["trace"])
+            tid = ce[-1][1].get("tid") if ce else None
+            if not isinstance(tid, int):
+                raise MachineryError("trace validation: invariant violated but the trace could not be identified\n" + res.stdout[-1500:])
+            rec = todo[tid - 1]
+            out.append({"record": rec, "maxl": ce[-1][1].get("l"), "event": None, "invariant": res.violation["name"],
+                        "last_state": ce[-1][1]})
+            todo = [r for i, r in enumerate(todo) if i != tid - 1]      # the run stopped there: validate the others again
+            continue
+        if not res.ok and res.violation["kind"] != "postcondition":
+            raise MachineryError(f"trace validation failed: {res.violation['kind']}\n" + res.stdout[-2000:])
+        rej = [(int(x), int(y)) for x, y in _REJ.findall(res.stdout)]
+        for tid, maxl in rej:
+            rec = todo[tid - 1]
+            ev = rec["events"][maxl - 1] if 0 < maxl <= len(rec["events"]) else None
+            out.append({"record": rec, "maxl": maxl, "event": ev, "invariant": None, "last_state": None})
+        with _acct:
+            ctx.trace_ok(len(todo) - len(rej))
+        break
+    return out
 
 
 def validate(ctx, recs, cfg="BleSession_Trace.cfg", label="trace validation", parallel=8):
-    """Validate records against BleSession_Trace; -> rejections (tracecheck format)."""
+    """Validate records against BleSession_Trace (batches in parallel, one single-worker TLC each); -> rejections."""
     if not recs:
         return []
-    k = max(1, min(parallel, (len(recs) + 149) // 150))
+    k = max(1, min(parallel, (len(recs) + 79) // 80))
     parts = [recs[i::k] for i in range(k)]
-    sh = _SharedCtx(ctx)
     with ThreadPoolExecutor(k) as ex:
-        outs = list(ex.map(lambda part: tracecheck.validate(sh, "ble/BleSession_Trace", cfg, part,
-                                                            label=f"{label} ({len(part)} executions)", timeout=1500), parts))
+        outs = list(ex.map(lambda part: _tlc_traces(ctx, cfg, part, label), parts))
     return [j for o in outs for j in o]
 
 
+def _explain(j, cfg="BleSession_Trace.cfg"):
+    """Last state of the longest matched prefix of a rejected execution (one TLC run; used for a few only)."""
+    path = os.path.join(SPEC, "ble", "BleSession_Trace.tla")
+    return tracecheck._last_state(path, os.path.join(SPEC, "ble", cfg), j["record"], j["maxl"])
+
+
 def report(ctx, rej, what="execution"):
-    """Turn rejections into violations; a rejection that the unguarded model explains is named as what it is."""
-    pending = [j for j in rej if j.get("record")]
-    stale = set()
-    if pending:
-        sub = validate(ctx, [j["record"] for j in pending], cfg="BleSession_Trace_unguarded.cfg", label="diagnosis: unguarded model")
-        still = {id(s.get("record")) for s in sub if not s.get("invariant")}
-        stale = {id(j["record"]) for j in pending if id(j["record"]) not in still and not j.get("invariant")}
+    """Rejections -> verdicts.  An execution that BleSession rejects at an unexplained event but that the *unguarded* model
+    (the one deviation: keys installed for a link that is already lost, BleSession_MCu.cfg) accepts completely is the recorded
+    finding SIG_STALE; everything else is a plain violation."""
+    unexplained = [j for j in rej if not j.get("invariant")]
+    known = set()
+    if unexplained:
+        # one batch, conformance only (the deviation itself breaks KeysMatchLink / CountersInSync, so no invariants there)
+        sub = validate(ctx, [j["record"] for j in unexplained], cfg="BleSession_Trace_unguarded.cfg",
+                       label="rejected executions against the unguarded model", parallel=4)
+        still = {id(x["record"]) for x in sub}
+        known = {id(j["record"]) for j in unexplained if id(j["record"]) not in still}
+    ctx.notes["executions_explained_only_by_stale_key_deviation"] = len(known)
+    detailed = 0
     for j in rej:
-        rec = j.get("record")
-        rid = rec.get("id") if rec else "?"
+        rec = j["record"]
+        rid = rec.get("id", "?")
+        if id(rec) in known:
+            ctx.violation(f"{what} {rid}: event #{j['maxl']} {j['event']} - session keys were installed although the link the pair-verify "
+                          f"ran on was already lost (the last pair-verify reply and the loss of the link arrived together); the keys outlive "
+                          f"the connection and the next connection uses them without a pair-verify",
+                          {"kind": "trace", "record": rec, "position": j["maxl"], "first_unexplained": j["event"]}, signature=SIG_STALE)
+            continue
         if j.get("invariant"):
             msg = f"{what} {rid} drives BleSession into a state that violates {j['invariant']}"
-        elif rec is not None and id(rec) in stale:
-            msg = (f"{what} {rid}: event #{j['maxl']} {j['event']} - keys were installed although the link the pair-verify ran on "
-                   f"was already lost (explained only by the unguarded model: the keys outlive the connection and are used on the "
-                   f"next one without a pair-verify)")
         else:
             msg = f"{what} {rid} is not a behaviour of BleSession: event #{j['maxl']} {j['event']} cannot be explained"
+            if detailed < 4:
+                detailed += 1
+                j["last_state"] = _explain(j)
         ctx.violation(msg, {"kind": "trace", "record": rec, "first_unexplained": j.get("event"), "position": j.get("maxl"),
                             "invariant": j.get("invariant"), "last_matched_state": j.get("last_state")})
 
 
 def pairing_level_records(ctx, n):
     """Seeded random executions of the real BlePairing (for other checks, e.g. C06 at pairing level)."""
-    jobs = [_rnd_job(ctx.seed, i) for i in range(n)]
+    jobs = [_rnd_job(ctx.seed, i, ctx.thorough) for i in range(n)]
     with mp.get_context("fork").Pool(min(16, os.cpu_count() or 4)) as pool:
         return pool.map(_random_run, jobs, chunksize=8)
+
+
+def _mc_jobs(ctx):
+    """(A): the model-checking runs, each a function of a ctx-like object."""
+    from harness.common import MachineryError
+
+    def mcq(c):
+        c.tlc("ble/BleSession", "BleSession_MCq.cfg", label="exhaustive: 2 callers x 1 call, 2 links, 2 epochs, 2 faults", timeout=900,
+              ignore_cover=("NotStuck", "Quiescent", "Subscribe"))
+
+    def mcs(c):
+        c.tlc("ble/BleSession", "BleSession_MCs.cfg", label="exhaustive: with subscriptions (restore after reconnect), 1 fault", timeout=900,
+              coverage=False, require_cover=False)
+
+    def mcu(c):
+        res = c.tlc("ble/BleSession", "BleSession_MCu.cfg", expect_violation=True, coverage=False, require_cover=False,
+                    label="unguarded variant (the recorded deviation): TLC must find the stale-key counterexample", timeout=600)
+        if res.ok or res.violation.get("name") != "KeysMatchLink":
+            raise MachineryError("the unguarded model no longer violates KeysMatchLink: the model has become vacuous")
+
+    def live(c):
+        c.tlc("ble/BleSession", "BleSession_Live.cfg", label="liveness: every call returns (fair scheduling, answering stack)",
+              coverage=False, require_cover=False, timeout=1500)
+    jobs = [mcq, mcs, mcu, live]
+    if ctx.thorough:
+        def mcs2(c):
+            c.tlc("ble/BleSession", "BleSession_MCs2.cfg", label="exhaustive: subscribe() at any time without a connection, 2 faults (symmetry)",
+                  coverage=False, require_cover=False, timeout=2400)
+
+        def mca(c):
+            c.tlc("ble/BleSession", "BleSession_MCa.cfg", label="exhaustive: 3 callers x 1 call, 2 faults (symmetry)", coverage=False,
+                  require_cover=False, timeout=2400)
+
+        def mcb(c):
+            c.tlc("ble/BleSession", "BleSession_MCb.cfg", label="exhaustive: 2 callers x 1 call, 2 requests, 2+2 fragments, 1 fault (symmetry)",
+                  coverage=False, require_cover=False, timeout=2400)
+        jobs = [mca, mcq, mcs, mcu, live, mcs2, mcb]
+    return jobs
+
+
+def _run_mc(ctx, ex):
+    """Start the model-checking runs on private contexts (they run next to the trace validation); -> merge function."""
+    from harness.common import Ctx
+    subs = []
+    futs = []
+    for job in _mc_jobs(ctx):
+        sub = Ctx(ctx.pid + "-mc", ctx.tier, ctx.seed)
+        subs.append(sub)
+        futs.append(ex.submit(job, sub))
+
+    def merge():
+        for f in futs:
+            f.result()                       # MachineryError propagates
+        for sub in subs:
+            ctx.states += sub.states
+            ctx.transitions += sub.transitions
+            ctx.tlc_runs += sub.tlc_runs
+            for what, path in sub.violations:
+                try:
+                    obj = json.load(open(path)).get("replay")
+                    os.remove(path)
+                except (OSError, ValueError):
+                    obj = None
+                ctx.violation(what, obj)
+    return merge
 
 
 def run(ctx):
@@ -288,32 +399,13 @@ def run(ctx):
         return _replay(ctx)
     tmp = tempfile.mkdtemp(prefix="extble_")
     try:
-        # ---------------- (A)
-        ctx.tlc("ble/BleSession", "BleSession_MCq.cfg", label="exhaustive: 2 callers x 1 call, 2 links, 2 epochs, 2 faults", timeout=900,
-                ignore_cover=("NotStuck", "Quiescent", "Subscribe"))
-        ctx.tlc("ble/BleSession", "BleSession_MCs.cfg", label="exhaustive: with subscriptions (restore after reconnect), 1 fault", timeout=900,
-                coverage=False, require_cover=False)
-        res = ctx.tlc("ble/BleSession", "BleSession_MCu.cfg", expect_violation=True, coverage=False, require_cover=False,
-                      label="unguarded variant: TLC must find the stale-key counterexample", timeout=600)
-        if res.ok or res.violation.get("name") != "KeysMatchLink":
-            from harness.common import MachineryError
-            raise MachineryError("the unguarded model no longer violates KeysMatchLink: the model has become vacuous")
-        ctx.tlc("ble/BleSession", ctx.pick("BleSession_Live.cfg", "BleSession_Live2.cfg"),
-                label="liveness: every call returns (fair scheduling, answering stack)", coverage=False, require_cover=False, timeout=1500)
-        if ctx.thorough:
-            ctx.tlc("ble/BleSession", "BleSession_MCs2.cfg", label="exhaustive: subscribe() at any time without a connection, 2 faults (symmetry)",
-                    coverage=False, require_cover=False, timeout=2400)
-            ctx.tlc("ble/BleSession", "BleSession_MCa.cfg", label="exhaustive: 3 callers x 1 call, 2 faults (symmetry)", coverage=False, require_cover=False,
-                    timeout=2400)
-            ctx.tlc("ble/BleSession", "BleSession_MCb.cfg", label="exhaustive: 2 callers x 1 call, 2 requests, 2+2 fragments, 1 fault (symmetry)",
-                    coverage=False, require_cover=False, timeout=2400)
         # ---------------- (B) + (C)
-        nb = ctx.pick(200, 1500)
+        nb = ctx.pick(150, 1500)
         beh = _behaviours(ctx, tmp, nb, ctx.pick(70, 100), ctx.seed % 100000)
         jobs_b = [(b, ctx.seed * 7 + i, f"beh{i}") for i, b in enumerate(beh)]
-        nr = ctx.pick(400, 4500)
-        jobs_r = [_rnd_job(ctx.seed, i) for i in range(nr)]
-        nd = ctx.pick(90, 900)
+        nr = ctx.pick(300, 4000)
+        jobs_r = [_rnd_job(ctx.seed, i, ctx.thorough) for i in range(nr)]
+        nd = ctx.pick(60, 600)
         jobs_d = [_dir_job(ctx.seed, i) for i in range(nd)]
         with mp.get_context("fork").Pool(min(16, os.cpu_count() or 4)) as pool:
             recs = pool.map(_replay_behaviour, jobs_b, chunksize=8)
@@ -334,8 +426,12 @@ def run(ctx):
         for r in recs:
             key = json.dumps(r["events"], sort_keys=True)
             ctx.case(key if any(e["ev"] == "enc" for e in r["events"]) else None)
-        rej = validate(ctx, recs, label="trace validation")
-        report(ctx, rej)
+        # ---------------- (A) next to (C): TLC model checking and trace validation run side by side
+        with ThreadPoolExecutor(ctx.pick(4, 3)) as ex:
+            merge = _run_mc(ctx, ex)
+            rej = validate(ctx, recs, label="trace validation", parallel=ctx.pick(7, 8))
+            report(ctx, rej)
+            merge()
         ctx.sample({"recorded_trace_prefix": recs[0]["events"][:30]})
         if beh:
             ctx.sample({"tlc_behaviour_env_actions": recs[0].get("actions", [])[:30]})
@@ -357,7 +453,7 @@ def _replay(ctx):
     m = re.match(r"rnd(\d+)$", rid)
     md = re.match(r"dir(\d+)$", rid)
     if m:
-        fresh = _random_run(_rnd_job(seed, int(m.group(1))))
+        fresh = _random_run(_rnd_job(seed, int(m.group(1)), rep.get("tier", ctx.tier) == "thorough"))
     elif md:
         fresh = _directed_run(_dir_job(seed, int(md.group(1))))
     elif rid.startswith("beh") and rec.get("actions"):
